@@ -258,6 +258,151 @@ Section Revive.
   Qed.
 End Revive.
 
+(** ---- both modes: with shardMerging = false the same holds provided no RENAMED repository is alive in the selected
+    shard (the rename purge runs before the revival and may remove a shard in which nothing else is alive).
+    After the revival the repository itself is a live tenant, so the shard survives the last phase. *)
+Definition safeA (b id : N) (a : act) : Prop :=
+  match a with
+  | RmIndex b' => b' <> b
+  | MvToTrash b' => b' <> b
+  | Tomb b' id' true => b' <> b \/ id' <> id
+  | TombOrRm b' id' _ => b' <> b \/ id' <> id
+  | _ => True
+  end.
+
+Lemma safeU_safeA : forall b id a, safeU b id a -> safeA b id a.
+Proof. intros b id a H. destruct a; simpl in *; auto. Qed.
+
+Lemma has_alive_others : forall id id' g, has_alive id g -> id' <> id -> others_alive id' g = true.
+Proof.
+  intros id id' g [e [He Hid]] Hne. unfold alive_entries in He. apply filter_In in He. destruct He as [He Ht].
+  unfold others_alive. apply existsb_exists. exists e. split; [exact He|]. rewrite Ht. simpl.
+  apply negb_true_iff. apply N.eqb_neq. congruence.
+Qed.
+
+Lemma alive_stepA : forall now b id a x, safeA b id a -> alive_at b id x -> alive_at b id (apply now x a).
+Proof.
+  intros now b id a x Hs Hal.
+  destruct a as [b'|b'|b' id' flag|b' id' totr|b'|b'|b'|b'|];
+    try (apply alive_step; [exact Hs|exact Hal]).
+  destruct Hal as [g [Hin [Hb Ha]]]. simpl in *.
+    destruct (N.eq_dec b' b) as [Eb|Nb].
+    + destruct Hs as [Hs|Hs]; [contradiction|].
+      assert (SO : serves_others b' id' (d_index x) = true).
+      { unfold serves_others. apply existsb_exists. exists g. split; [exact Hin|].
+        apply andb_true_iff. split; [apply N.eqb_eq; congruence|]. eapply has_alive_others; eauto. }
+      rewrite SO. simpl. exists (if N.eqb (f_base g) b' then set_flag id' true g else g). split.
+      * unfold on_file. apply in_map_iff. exists g. auto.
+      * destruct (N.eqb (f_base g) b'); [|auto]. split; [exact Hb|].
+        apply has_alive_set_flag_keep; [exact Ha|]. intros _. exact Hs.
+    + destruct (serves_others b' id' (d_index x)); simpl.
+      * exists g. split; [|auto]. unfold on_file. apply in_map_iff. exists g. split; [|exact Hin].
+        destruct (N.eqb (f_base g) b') eqn:E; [apply N.eqb_eq in E; congruence|reflexivity].
+      * exists g. repeat split; auto. eapply rm_keeps; eauto.
+Qed.
+
+Lemma present_fold : forall now b id acts x,
+  Forall (safeU b id) acts -> present b id x -> present b id (fold_left (apply now) acts x).
+Proof.
+  intros now b id acts. induction acts as [|a t IH]; intros x HF H; [exact H|].
+  simpl. inversion HF; subst. apply IH; [assumption|]. apply present_step; assumption.
+Qed.
+
+Lemma alive_foldA : forall now b id acts x,
+  Forall (safeA b id) acts -> alive_at b id x -> alive_at b id (fold_left (apply now) acts x).
+Proof.
+  intros now b id acts. induction acts as [|a t IH]; intros x HF H; [exact H|].
+  simpl. inversion HF; subst. apply IH; [assumption|]. apply alive_stepA; assumption.
+Qed.
+
+Section ReviveAny.
+  Variables (d : dir) (repos : list N) (now : Z) (sm : bool) (id : N).
+  Hypothesis Hwf : wf d.
+  Hypothesis Hassigned : In id repos.
+  Hypothesis Hnot_alive : ~ In id (ids_of (ix d)).
+  Hypothesis Hnot_trash : ~ In id (trash_keys d now).
+  Hypothesis Htomb : In id (tomb_ids (d_index d)).
+  (* no renamed repository (same id, several names) is alive in the shard getTombstonedRepos selects *)
+  Hypothesis Hno_renamed : forall b, tomb_pick (tomb_candidates (d_index d) id) = Some b ->
+    forall s i, In s (group (ix d) i) -> s_base s = b -> consistent (group (ix d) i) = true.
+
+  Theorem assigned_untombstoned_any :
+    exists b, tomb_pick (tomb_candidates (d_index d) id) = Some b /\ alive_at b id (cleanup d repos now sm).
+  Proof.
+    destruct (pick_some d id Htomb) as [b [Hp [g [Hg [Hb [Hc He]]]]]].
+    exists b. split; [exact Hp|].
+    assert (Hcomp : forall s i, In s (group (ix d) i) -> s_base s = b -> s_compound s = true).
+    { intros s i Hs Hsb. apply in_group in Hs. destruct Hs as [Hs _].
+      apply in_get_shards in Hs. destruct Hs as [g2 [e2 [Hg2 [_ ->]]]]. simpl in *.
+      assert (g2 = g) by (eapply NoDup_base_inj; eauto using wf_nodup; congruence). subst g2. exact Hc. }
+    assert (Hneq : forall i, In i (ids_of (ix d)) -> i <> id) by (intros i Hi ->; contradiction).
+    (* the actions before the revival keep the shard, those after it keep the repository alive in it *)
+    assert (P1 : Forall (safeU b id) (plan1 d now)).
+    { apply Forall_forall. intros a Ha. unfold plan1 in Ha. apply in_flat_map in Ha. destruct Ha as [i [_ Ha]].
+      apply in_app_or in Ha. destruct Ha as [Ha|Ha].
+      - apply in_map_iff in Ha. destruct Ha as [s [<- _]]. exact I.
+      - destruct (trash_drop d now i); [|contradiction].
+        apply in_map_iff in Ha. destruct Ha as [s [<- _]]. exact I. }
+    assert (P3 : Forall (safeU b id) (plan3 d sm)).
+    { apply Forall_forall. intros a Ha. unfold plan3 in Ha. apply in_flat_map in Ha. destruct Ha as [i [Hi Ha]].
+      destruct (consistent (group (ix d) i)) eqn:C; [contradiction|].
+      apply in_app_or in Ha. destruct Ha as [Ha|Ha]; apply in_map_iff in Ha; destruct Ha as [s [<- Hs]]; simpl.
+      - right. apply Hneq. exact Hi.
+      - apply filter_In in Hs. destruct Hs as [Hs _].
+        assert (Hsb : s_base s <> b).
+        { intros Hsb. rewrite (Hno_renamed b Hp s i Hs Hsb) in C. discriminate. }
+        destruct (s_compound s); simpl; exact Hsb. }
+    assert (P4 : Forall (safeU b id) (plan4 d repos now)).
+    { apply Forall_forall. intros a Ha. unfold plan4 in Ha. apply in_flat_map in Ha. destruct Ha as [i [_ Ha]].
+      destruct (memN i (trash_keys d now)) eqn:TK.
+      - apply in_flat_map in Ha. destruct Ha as [s [Hs Ha]].
+        unfold move_to in Ha. simpl in Ha. destruct Ha as [<-|Ha].
+        + simpl. intros Hsb. apply in_group in Hs. destruct Hs as [Hs Hi].
+          apply in_get_shards in Hs. destruct Hs as [t [e' [Ht [He' ->]]]]. simpl in *.
+          assert (Hbb : f_base t = f_base g) by congruence.
+          pose proof (wf_trash_names d Hwf t g e' Ht Hg Hbb He') as Hin. rewrite Hi in Hin.
+          apply memN_In in TK. unfold trash_keys in TK. apply filter_In in TK. destruct TK as [_ TK].
+          unfold trash_drop in TK. apply memN_In in Hin. unfold ix in TK. rewrite Hin in TK. discriminate.
+        + destruct (s_compound s); simpl in Ha; destruct Ha as [<-|[]]; exact I.
+      - destruct (memN i (tomb_keys d now)); [|contradiction].
+        destruct (tomb_pick (tomb_candidates (d_index d) i)); [|contradiction].
+        destruct Ha as [<-|[]]. exact I. }
+    assert (P5 : Forall (safeA b id) (plan5 d repos sm)).
+    { apply Forall_forall. intros a Ha. unfold plan5 in Ha. apply in_flat_map in Ha. destruct Ha as [i [Hi Ha]].
+      assert (Hi' : In i (ids_of (ix d))).
+      { unfold keys4, keys3 in Hi. apply filter_In in Hi. destruct Hi as [Hi _]. apply filter_In in Hi. tauto. }
+      apply in_app_or in Ha. destruct Ha as [Ha|Ha].
+      - apply in_map_iff in Ha. destruct Ha as [s [<- _]]. exact I.
+      - apply in_app_or in Ha. destruct Ha as [Ha|Ha].
+        + apply in_map_iff in Ha. destruct Ha as [s [<- _]]. simpl. right. apply Hneq. exact Hi'.
+        + apply in_flat_map in Ha. destruct Ha as [s [Hs Ha]].
+          apply filter_In in Hs. destruct Hs as [Hs _].
+          destruct (s_compound s) eqn:K.
+          * destruct Ha as [<-|[]]. simpl. right. apply Hneq. exact Hi'.
+          * assert (Hsb : s_base s <> b) by (intros Hsb; rewrite (Hcomp s i Hs Hsb) in K; discriminate).
+            unfold move_to in Ha. rewrite K in Ha. simpl in Ha.
+            destruct Ha as [<-|[<-|[]]]; [exact I|exact Hsb]. }
+    (* the revival itself *)
+    assert (Htrig : In (Tomb b id false) (plan4 d repos now)).
+    { unfold plan4. apply in_flat_map. exists id. split; [exact Hassigned|].
+      destruct (memN id (trash_keys d now)) eqn:M; [apply memN_In in M; contradiction|].
+      rewrite (id_in_tomb_keys d now id Hnot_alive Hnot_trash Htomb), Hp. left. reflexivity. }
+    apply in_split in Htrig. destruct Htrig as [p4a [p4b Hsplit]].
+    rewrite Hsplit in P4. apply Forall_app in P4. destruct P4 as [P4a P4b]. pose proof (Forall_inv_tail P4b) as P4b'.
+    unfold cleanup, plan. rewrite Hsplit.
+    repeat rewrite fold_left_app.
+    change (fold_left (apply now) (Tomb b id false :: p4b) ?X) with (fold_left (apply now) p4b (apply now X (Tomb b id false))).
+    apply alive_foldA; [constructor; [exact I|constructor]|].
+    apply alive_foldA; [exact P5|].
+    apply alive_foldA; [eapply Forall_impl; [|exact P4b']; apply safeU_safeA|].
+    apply trigger_step.
+    apply present_fold; [exact P4a|].
+    apply present_fold; [exact P3|].
+    apply present_fold; [exact P1|].
+    exists g. repeat split; auto.
+  Qed.
+End ReviveAny.
+
 (** shardMerging = false: the rename purge removes a compound shard in which nothing but the renamed repository is
     alive; an assigned repository tombstoned in it (3) is then not revived from it (it was not searchable before) *)
 Definition ex_dir3 : dir :=
